@@ -147,18 +147,29 @@ fn child_run(cases: &[(Decoder, Vec<u8>)], table: &Shared, from: usize, wfd: i32
         libc::signal(libc::SIGPROF, libc::SIG_DFL);
     }
     guard::install_hook();
+    let debug = std::env::var("VERIF_DEBUG").is_ok();
     vcore::alloc::set_report_fd(wfd);
     vcore::alloc::set_single_request_cap(SINGLE_REQUEST_CAP);
     for i in from..cases.len() {
         let (d, bytes) = &cases[i];
         table.set(i, Slot { state: 1, growth: 0, biggest: 0 });
         arm_cpu_timer(CPU_LIMIT_S);
+        let t_case = if debug { Some(std::time::Instant::now()) } else { None };
         vcore::alloc::reset_peak();
         let base = vcore::alloc::current();
         let r = std::panic::catch_unwind(|| decoders::decode(*d, bytes));
         let growth = vcore::alloc::peak().saturating_sub(base) as u64;
         let biggest = vcore::alloc::biggest() as u64;
         arm_cpu_timer(0);
+        if let Some(t) = t_case {
+            let ms = t.elapsed().as_millis();
+            if ms >= 20 {
+                let line = format!("SLOW\t{i}\t{ms}\t{}\t{}\tgrowth={growth}\n", d.name(), bytes.len());
+                unsafe {
+                    libc::write(wfd, line.as_ptr() as *const libc::c_void, line.len());
+                }
+            }
+        }
         match r {
             Ok(ok) => table.set(i, Slot { state: if ok { 2 } else { 3 }, growth, biggest }),
             Err(_) => {
@@ -187,6 +198,9 @@ pub fn observe_all(cases: &[(Decoder, Vec<u8>)]) -> Vec<Obs> {
         let res = fork::run_in_child(limits, |wfd| child_run(cases, &table, from, wfd));
         let text = String::from_utf8_lossy(&res.payload).to_string();
         for line in text.lines() {
+            if line.starts_with("SLOW\t") {
+                eprintln!("{line}");
+            }
             if let Some(rest) = line.strip_prefix("PANIC\t") {
                 let mut it = rest.splitn(3, '\t');
                 if let (Some(i), Some(file), Some(msg)) = (it.next(), it.next(), it.next()) {
@@ -715,18 +729,42 @@ pub fn run(ctx: &vcore::Ctx) -> ! {
     report.stats.extra.insert("committed_seeds".into(), json!(committed));
     run_batch(&mut report, &known, &mut findings, batch, "valid encodings and committed seeds");
 
-    // phase 1: systematic sweep (truncation at every offset, every length-like word × boundary values)
-    let sweep_budget: usize = ctx.pick(45_000, 1_500_000);
+    let t_phase0 = ctx.t0.elapsed().as_secs_f64();
+    // decoder families and their share of the generated cases (sweep and random mutation alike)
+    // 0 rtps, 1 spdp, 2 sedp_pub, 3 sedp_sub, 4 topic, 5 type lookup, 6 user payloads
+    let family_of = |d: Decoder| -> usize {
+        match d {
+            Decoder::RtpsMessage => 0,
+            Decoder::Spdp => 1,
+            Decoder::SedpPub => 2,
+            Decoder::SedpSub => 3,
+            Decoder::Topic => 4,
+            Decoder::TypeLookupRequest | Decoder::TypeLookupReply => 5,
+            Decoder::Payload(_) => 6,
+        }
+    };
+    const FAMILY_SHARE: [usize; 7] = [22, 9, 9, 9, 9, 6, 36];
+    let mut family_seeds: Vec<Vec<usize>> = vec![vec![]; 7];
+    for (i, sd) in pool.seeds.iter().enumerate() {
+        family_seeds[family_of(sd.decoder)].push(i);
+    }
+
+    // phase 1: systematic sweep (truncation at every offset, every length-like word × boundary values),
+    // per family: seeds in round-robin over the family's decoders, smallest first, until the family's budget is used
+    let sweep_budget: usize = ctx.pick(32_000, 1_500_000);
     let mut batch: Vec<Case> = vec![];
-    let mut produced = 0usize;
-    // round-robin over decoders so that every family is swept, smallest seeds first
-    let mut order: Vec<usize> = vec![];
-    {
-        let mut lists: Vec<Vec<usize>> = by_decoder.values().map(|v| {
-            let mut v = v.clone();
-            v.sort_by_key(|&i| (pool.seeds[i].bytes.len(), i));
-            v
-        }).collect();
+    for fam in 0..7 {
+        let fam_budget = sweep_budget * FAMILY_SHARE[fam] / 100;
+        let mut lists: Vec<Vec<usize>> = by_decoder
+            .iter()
+            .filter(|(d, _)| family_of(**d) == fam)
+            .map(|(_, v)| {
+                let mut v = v.clone();
+                v.sort_by_key(|&i| (pool.seeds[i].bytes.len(), i));
+                v
+            })
+            .collect();
+        let mut order: Vec<usize> = vec![];
         let mut k = 0;
         loop {
             let mut any = false;
@@ -741,28 +779,30 @@ pub fn run(ctx: &vcore::Ctx) -> ! {
             }
             k += 1;
         }
-    }
-    for &i in &order {
-        let s = &pool.seeds[i];
-        if s.bytes.len() > 700 {
-            continue;
-        }
-        let sw = mutate::sweep(&s.bytes, mutate::shape_of(s.decoder));
-        if produced + sw.len() > sweep_budget {
-            break;
-        }
-        produced += sw.len();
-        for (b, class) in sw {
-            batch.push(Case { decoder: s.decoder, bytes: b, derived: true, classes: vec![class] });
-        }
-        if batch.len() >= 20_000 {
-            run_batch(&mut report, &known, &mut findings, std::mem::take(&mut batch), "systematic sweep");
+        let mut produced = 0usize;
+        for &i in &order {
+            let sd = &pool.seeds[i];
+            if sd.bytes.len() > 700 {
+                continue;
+            }
+            let sw = mutate::sweep(&sd.bytes, mutate::shape_of(sd.decoder));
+            if produced + sw.len() > fam_budget {
+                break;
+            }
+            produced += sw.len();
+            for (b, class) in sw {
+                batch.push(Case { decoder: sd.decoder, bytes: b, derived: true, classes: vec![class] });
+            }
+            if batch.len() >= 20_000 {
+                run_batch(&mut report, &known, &mut findings, std::mem::take(&mut batch), "systematic sweep");
+            }
         }
     }
     run_batch(&mut report, &known, &mut findings, batch, "systematic sweep");
+    let t_phase1 = ctx.t0.elapsed().as_secs_f64();
 
     // phase 2: random structure-aware mutation
-    let random_cases: usize = ctx.pick(110_000, 3_500_000);
+    let random_cases: usize = ctx.pick(85_000, 3_500_000);
     let mut rng = Src(ctx.rng_seed("mutation"));
     {
         // the stream is derived from the proptest runner seeded for this property (determinism rule)
@@ -785,8 +825,14 @@ pub fn run(ctx: &vcore::Ctx) -> ! {
                 batch.push(Case { decoder: d, bytes, derived: false, classes: vec!["random-bytes"] });
                 continue;
             }
-            let si = rng.below(pool.seeds.len() as u64) as usize;
-            let seed = &pool.seeds[si];
+            let mut pick = rng.below(100) as usize;
+            let mut fam = 0;
+            while pick >= FAMILY_SHARE[fam] {
+                pick -= FAMILY_SHARE[fam];
+                fam += 1;
+            }
+            let fs = &family_seeds[fam];
+            let seed = &pool.seeds[fs[rng.below(fs.len() as u64) as usize]];
             let donors = &by_decoder[&seed.decoder];
             let donor = &pool.seeds[donors[rng.below(donors.len() as u64) as usize]].bytes;
             let (bytes, classes) = mutate::mutate(&seed.bytes, mutate::shape_of(seed.decoder), &mut rng, donor);
@@ -802,6 +848,7 @@ pub fn run(ctx: &vcore::Ctx) -> ! {
         done += n;
         run_batch(&mut report, &known, &mut findings, batch, "random mutation");
     }
+    let t_phase2 = ctx.t0.elapsed().as_secs_f64();
 
     // phase 3: libFuzzer
     let fz = run_fuzz(ctx, &mut report, &known, &mut findings);
@@ -810,9 +857,18 @@ pub fn run(ctx: &vcore::Ctx) -> ! {
         report.stats.extra.insert("fuzz_notes".into(), json!(fz.notes));
     }
 
-    // minimise and report every distinct unknown signature
+    let t_phase3 = ctx.t0.elapsed().as_secs_f64();
+    // minimise and report every distinct unknown signature (slow observations get a small budget: a hanging
+    // candidate costs 2 s of CPU, an allocation-heavy one up to a few hundred ms)
     let budget = ctx.pick(120usize, 400);
     for (sig, (d, bytes, what, origin)) in &findings.first {
+        let budget = if sig.starts_with("C07:hang") {
+            8
+        } else if sig.starts_with("C07:alloc:peak") {
+            budget / 4
+        } else {
+            budget
+        };
         let min = if bytes.len() > 2 { minimise(*d, bytes, sig, budget) } else { bytes.clone() };
         let obs = observe_one(*d, &min);
         let (sig2, what2) = judge(*d, min.len(), &obs).unwrap_or((sig.clone(), what.clone()));
@@ -825,6 +881,11 @@ pub fn run(ctx: &vcore::Ctx) -> ! {
             shrunk_to: Some(final_bytes.len() as u64),
         });
     }
+    let t_end = ctx.t0.elapsed().as_secs_f64();
+    report.stats.extra.insert(
+        "phase_wall_s".into(),
+        json!({"valid+seeds": t_phase0, "sweep": t_phase1 - t_phase0, "random": t_phase2 - t_phase1, "libfuzzer": t_phase3 - t_phase2, "minimise": t_end - t_phase3}),
+    );
     vcore::finish(ctx, meta(ctx.pick(50_000, 1_000_000)), report);
 }
 
